@@ -87,7 +87,31 @@ class ExecutionTimeout(BaseException):
     """One simulated execution exceeded its wall-clock budget: a hang in harness or library code (never exit 0)."""
 
 
+_alarm = {"n": 0, "pid": None, "profile": None, "source": None}
+
+
 def _on_alarm(signum, frame):
+    _alarm["n"] += 1
+    if _alarm["n"] >= 3:
+        # The code under test swallowed the watchdog's exception twice and keeps running (e.g. a retry loop that catches
+        # BaseException): this execution can neither be finished nor be abandoned from the inside.  It is reported as a
+        # violation with the choices drawn so far, and the worker process ends itself - the check then exits non-zero.
+        try:
+            src = _alarm["source"]
+            pid = _alarm["pid"]
+            path = os.path.join(VERIF, "replays", f"{pid}-uninterruptible-{os.getpid()}.json")
+            os.makedirs(os.path.dirname(path), exist_ok=True)
+            doc = {"property": pid, "profile": _alarm["profile"], "seed": None, "choices": list(getattr(src, "trace", []) or []),
+                   "violation": {"rule": "uninterruptible-hang", "signature": "uninterruptible-hang", "features": {},
+                                 "msg": "one simulated execution ran for more than 50 s of wall-clock time and swallowed the "
+                                        "watchdog's BaseException twice: code under test catches everything and loops"},
+                   "digest": "", "replay_cmd": f"/verif/bin/check {pid} --replay {path}", "tree": tree_ident()}
+            with open(path, "w") as f:
+                json.dump(doc, f, indent=1, default=repr)
+            os.write(1, (f"violation rule/signature: uninterruptible-hang (1 runs) :: {doc['violation']['msg']}\n"
+                         f"VIOLATION property={pid} replay={path}\n").encode())
+        finally:
+            os._exit(1)
     raise ExecutionTimeout("a single simulated execution ran longer than 40 s of wall-clock time")
 
 
@@ -97,8 +121,9 @@ def execute(prop, profile: str, source: Source, *, keep_log: bool = False, known
     import threading
     armed = threading.current_thread() is threading.main_thread()
     if armed:
+        _alarm.update(n=0, pid=getattr(prop, "id", "?"), profile=profile, source=source)
         signal.signal(signal.SIGALRM, _on_alarm)
-        signal.setitimer(signal.ITIMER_REAL, 40.0)
+        signal.setitimer(signal.ITIMER_REAL, 40.0, 5.0)  # then every 5 s: an execution that swallows the first one is escalated
     try:
         return _execute(prop, profile, source, keep_log=keep_log, known=known)
     finally:
@@ -548,6 +573,16 @@ def check(pid: str, tier: str, base_seed: int, workers: int | None = None) -> in
                              "count": slot["count"], "replay": path,
                              "msg": final["violation"]["msg"], "choices": len(best)})
 
+    if pool_failed:
+        # a worker that ended itself because an execution could not be interrupted has left its report behind
+        import glob
+        started = _time.time() - (_real_monotonic() - t0)
+        for path in sorted(glob.glob(os.path.join(VERIF, "replays", f"{pid}-uninterruptible-*.json"))):
+            if os.path.getmtime(path) >= started - 1:
+                with open(path) as f:
+                    doc = json.load(f)
+                reported.append({"signature": doc["violation"]["signature"], "first_signature": doc["violation"]["signature"],
+                                 "count": 1, "replay": path, "msg": doc["violation"]["msg"], "choices": len(doc["choices"])})
     wall = _real_monotonic() - t0
     # ---- report ----------------------------------------------------------------------------------
     for sig, what in sorted(known.items()):
